@@ -1,7 +1,7 @@
 (* IdealFacts: general lemmas about the real-arithmetic instance (Ideal.v):
    floor / trunc / C fmod on the reals, and Python's float % (PyVal.fmod_py) read
    in that instance.  Nothing here is specific to a pymeeus function. *)
-From Coq Require Import Reals ZArith List Bool Lra Lia.
+From Coq Require Import Reals ZArith List Bool Lra Lia Psatz.
 From PyLib Require Import PyVal Ideal.
 Import ListNotations.
 Open Scope R_scope.
@@ -129,4 +129,41 @@ Lemma int_frac_mod a n : (0 < n)%Z ->
 Proof.
   intro Hn. rewrite Rfloor_div_Z by assumption.
   rewrite Z.mod_eq by lia. rewrite minus_IZR, mult_IZR. ring.
+Qed.
+
+(* truncation stays within one unit of its argument, on the side of zero *)
+Lemma Rtrunc_bounds z : (0 <= z -> 0 <= z - IZR (Rtrunc z) < 1) /\ (z < 0 -> -1 < z - IZR (Rtrunc z) <= 0).
+Proof.
+  split; intro H.
+  - rewrite Rtrunc_nonneg by assumption. pose proof (Rfloor_spec z). lra.
+  - rewrite Rtrunc_neg by assumption. rewrite opp_IZR. pose proof (Rfloor_spec (- z)). lra.
+Qed.
+
+(* Python's float % for ANY dividend and a positive divisor: x - y * floor (x / y), in [0, y) *)
+Lemma fmod_py_posdiv x y : 0 < y -> fmod_py Rops x y = VFloat (x - y * IZR (Rfloor (x / y))).
+Proof.
+  intros Hy. set (u := x / y). assert (x = y * u) as Ex by (unfold u; field; lra).
+  set (t := Rtrunc u). assert (-1 < u - IZR t < 1) as Ht.
+  { destruct (Rlt_dec u 0) as [N|N].
+    - pose proof (proj2 (Rtrunc_bounds u) N). unfold t. lra.
+    - pose proof (proj1 (Rtrunc_bounds u) ltac:(lra)). unfold t. lra. }
+  assert (Rfmod x y = y * (u - IZR t)) as Em by (unfold Rfmod; fold u; fold t; rewrite Ex at 1; ring).
+  unfold fmod_py. cbn [f_eqb f_fmod f_signbit f_ltb f_neg f_add Rops RopsC f0 f_of_Z].
+  rewrite (proj2 (Reqb_false y 0)) by lra. rewrite Em.
+  rewrite (proj2 (Rltb_false y 0)) by lra.
+  set (d := u - IZR t) in *.
+  destruct (Rtotal_order d 0) as [L|[E|G]].
+  - assert (y * d < 0) by nra.
+    rewrite (proj2 (Reqb_false (y * d) 0)) by lra.
+    rewrite (proj2 (Rltb_true (y * d) 0)) by lra. cbn [Bool.eqb].
+    assert (Rfloor u = (t - 1)%Z) as -> by (apply Rfloor_unique; rewrite minus_IZR; unfold d in *; lra).
+    rewrite minus_IZR. f_equal. rewrite Ex. unfold d. ring.
+  - rewrite E, Rmult_0_r. rewrite (proj2 (Reqb_true 0 0)) by reflexivity.
+    assert (Rfloor u = t) as -> by (apply Rfloor_unique; unfold d in *; lra).
+    f_equal. rewrite Ex. unfold d in E. nra.
+  - assert (0 < y * d) by nra.
+    rewrite (proj2 (Reqb_false (y * d) 0)) by lra.
+    rewrite (proj2 (Rltb_false (y * d) 0)) by lra. cbn [Bool.eqb].
+    assert (Rfloor u = t) as -> by (apply Rfloor_unique; unfold d in *; lra).
+    f_equal. rewrite Ex. unfold d. ring.
 Qed.
